@@ -18,7 +18,7 @@ pub fn run(ctx: &Ctx) -> &'static str {
     ctx.explore(
         "history",
         "histories over 1..4 real links of sends through forward_via_connection (fresh, repeated, below the ACK high-water mark, probe copies), flushes, real SRT ACK / SRTLA ACK / NAK packets through handle_uplink_packet, and resets; per-link set model in lock-step, in-flight and score checked after every op; non-trivial = history contains a late send below the ACK high-water mark, an ACK jump > 64, a duplicate/stale ACK, an SRTLA ACK resolved on a non-arrival link, a NAK range or a reset with outstanding packets",
-        ctx.tier.pick(30_000, 600_000),
+        ctx.tier.pick(100_000, 1_000_000),
         || acct::strategy(Which::C02, max_ops),
         |_| |c: &acct::Case, o: &mut crate::rt::Obs| acct::check(c, o, Which::C02),
     );
